@@ -94,6 +94,8 @@ func main() {
 		debugMapRange(loadResolve("", true))
 	case "debug-sub":
 		debugSub(loadResolve("", true))
+	case "debug-narrow":
+		debugNarrow(loadResolve("", true))
 	case "debug-sign":
 		if len(os.Args) > 2 {
 			repoRoot = os.Args[2]
